@@ -866,9 +866,10 @@ impl<E: Effect> Executor<E> {
     }
 
     pub fn mark_active(&mut self, id: ProcessId) {
-        let was_spawning = self.spawning.remove(&id);
-        let was_selecting = self.selecting.remove(&id);
-        if was_spawning || was_selecting {
+        // Only a process parked in a select may be woken here (by an await answer). One that is
+        // mid-spawn must stay parked until `notify_spawn` delivers the new pid: re-running its
+        // Spawn instruction would find the operands already consumed.
+        if self.selecting.remove(&id) {
             self.queue.push_back(id);
         }
     }
